@@ -41,6 +41,9 @@ ANCHOR = {"alpha": "7/10", "po0": "1/5", "pn0": "4/5", "po1": "1/3", "pn1": "2/3
           "x0_0_2": "7/5", "x1_0_2": "2/3", "x2_0_2": "9/10"}
 
 
+ANCHOR2 = {"alpha": "9/4", "po0": "1/20", "pn0": "19/20", "po1": "2/5", "pn1": "3/5", "x0_0_0": "5/2", "x0_0_1": "1/7", "x1_0_0": "2/9", "x1_0_1": "4"}
+
+
 def slice_fixed(symbolic_prefixes, n, G, outl):
     """Everything except the variables whose name starts with one of `symbolic_prefixes` is held at ANCHOR."""
     names = ["alpha"] + [f"x{i}_0_{g}" for i in range(n) for g in range(G)]
@@ -75,20 +78,21 @@ def jobs(tier, seed):
                     out[-1]["name"] += f"-slice:{sname}"
             add(kern, wiring, True, "0", 2, 1, cost=1)
             add(kern, wiring, True, "1", 2, 1, cost=1)
-    n3 = []     # n=3 costs minutes per configuration (thousands of paths per start state): thorough tier only
-    if tier == "thorough":
-        n3 = [(k, w, False, t) for k in PROPOSALS for w in ("library", "run") for t in ("0", "1")]
-    for kern, wiring, outl, thr in n3:
-        for sname, pref in SLICES3.items():
-            if tier == "quick" and sname != "point0+alpha":
-                continue
-            add(kern, wiring, outl, thr, 2, 3, cost=100, fixed=slice_fixed(pref, 3, 2, outl), slice=sname)
-            out[-1]["name"] += f"-slice:{sname}"
+    # n = 3 whole-tree updates cost tens of minutes per configuration in this engine (thousands of paths per start state and
+    # row terms too large for z3 even on slices: probed, one job > 50 min) and are outside both tiers; the thorough tier adds
+    # three particles, a finer grid, the threshold 1/2 and a second anchor for the outlier slices at n = 2
     if tier == "thorough":
         for kern in PROPOSALS:
             for wiring in ("library", "run"):
                 add(kern, wiring, False, "1/2", 3, 2, cost=200)
+                add(kern, wiring, False, "1", 3, 2, cost=300)
                 add(kern, wiring, False, "1/2", 2, 2, G=3, cost=50)
+                add(kern, wiring, False, "1", 2, 2, G=3, cost=80)
+                for sname, pref in SLICES2.items():
+                    fx = slice_fixed(pref, 2, 2, True)
+                    fx = {k: ANCHOR2.get(k, v) for k, v in fx.items()}
+                    add(kern, wiring, True, "1/2", 2, 2, cost=10, fixed=fx, slice=sname + "@anchor2")
+                    out[-1]["name"] += f"-slice:{sname}@anchor2"
     for cname, kern, wiring, thr, outl in (("weight_omits_log_q", "fully", "library", "0", False), ("last_step_correction_dropped", "bootstrap", "library", "0", False),
                                            ("retained_weight_from_wrong_slot", "bootstrap", "library", "0", True), ("final_selection_uniform", "fully", "run", "0", False),
                                            ("run_wiring_without_perm_dist", "semi", "run", "0", False)):
@@ -240,9 +244,9 @@ def evidence(tier, seed, results, canaries):
                            "become region selectors that the solver splits on.",
             "functions_encoded": funcs,
             "bounds": {"quick": "n=2 data points, N=2 particles, grid 2, thresholds {0, 3/4, 1}, all three proposals x {library, run} wiring x outliers {off, on}; plus n=3 for two configurations",
-                       "thorough": "adds n=3 for all proposals/wirings/thresholds (and outliers on at threshold 1), N=3 at n=2, grid 3",
+                       "thorough": "adds N=3 particles and grid 3 at n=2 (thresholds 1/2 and 1) and a second anchor for the outlier slices",
                        "samples": 1},
-            "outside_bounds": ["n > 3, N > 3, several samples", "floating point"],
+            "outside_bounds": ["n >= 3 (whole-tree update: beyond the engine's reach, see DESIGN 1.6), N > 3, several samples", "floating point"],
             "obligations": obligations, "discharged": discharged,
             "evaluations": agg["paths"], "distinct_nontrivial": len({r["job"]["name"] for r in real}),
             "rule": "evaluations = sampler paths executed; distinct cases = configurations (proposal, wiring, outliers, threshold, N, n, G), all non-trivial",
